@@ -286,6 +286,8 @@ def strip_hints(n):
         n["oh"] = [0] * len(n["rets"])
         for ch in n["body"]:
             strip_hints(ch)
+        if n.get("base") is not None:
+            strip_hints(n["base"])
 
 
 def depth(n):
@@ -319,7 +321,7 @@ def _value(rng):
     return [f"f{rng.randrange(32)}", _const(rng), "d", _const(rng)]
 
 
-def gen_macro(rng, ids, depth_left, allow_dup, top=False):
+def gen_macro(rng, ids, depth_left, allow_dup, top=False, allow_base=True):
     nargs = rng.choice([0, 1, 1, 2, 2, 2, 3, 3])
     args = [{"d": None if rng.random() < 0.4 else _const(rng), "h": rng.choice([0, 0, 0, 1, 2, 3])} for _ in range(nargs)]
     args.sort(key=lambda a: a["d"] is not None)  # Python: parameters without a default come first
@@ -334,7 +336,7 @@ def gen_macro(rng, ids, depth_left, allow_dup, top=False):
     for j in range(nbody):
         nested = depth_left > 0 and rng.random() < 0.35
         if nested:
-            ch = gen_macro(rng, ids, depth_left - 1, allow_dup)
+            ch = gen_macro(rng, ids, depth_left - 1, allow_dup, allow_base=allow_base)
             n_in = len(ch["args"])
         else:
             ch = {"t": "L", "f": ids.fn(), "srcs": []}
@@ -383,6 +385,19 @@ def gen_macro(rng, ids, depth_left, allow_dup, top=False):
         m["lab"] = "declare"
     if not rets:
         m["lab"] = "scrape"  # nothing to declare
+    if allow_base and rng.random() < 0.12:
+        # the class extends another concrete macro class (own signature, own body, own labels)
+        base = gen_macro(rng, ids, 0, False, allow_base=False)
+        base["style"] = "class"  # (classes made by the decorator's class factory cannot be extended)
+        if base["lab"] == "declare" and base["rets"] and m["lab"] == "scrape":
+            # a parent's DECLARED labels are inherited like any class attribute: declare our own
+            if rets:
+                m["lab"] = "declare"
+            else:
+                base = None
+        if base is not None:
+            m["base"] = base
+            m["style"] = "class"
     return m
 
 
@@ -415,6 +430,53 @@ def _targets(defn):
     return t
 
 
+def chain_in(defn, path, k):
+    """the value links an assignment to input k of the macro at `path` forwards through"""
+    nd = node_at(defn, path)
+    if nd["t"] != "M":
+        return []
+    out = [("in", list(path), k)]
+    ro = role(nd, k)
+    if ro[0] == "child":
+        out += chain_in(defn, list(path) + [ro[1]], ro[2])
+    return out
+
+
+def recv_of(m, ret):
+    """index of the macro output linked to the returned object `ret` (the last label wins)"""
+    idx = [r for r, x in enumerate(m["rets"]) if list(x) == list(ret)]
+    return idx[-1] if idx else None
+
+
+def chain_out(defn, path, ret):
+    """the output links a new value of the returned object `ret` of the macro at `path` is pushed through"""
+    m = node_at(defn, path)
+    r = recv_of(m, ret)
+    if r is None:
+        return []
+    out = [("out", list(path), r)]
+    if path:
+        out += chain_out(defn, list(path[:-1]), ["o", path[-1], r])
+    return out
+
+
+def _followups(defn, op):
+    """updates on the SENDING end of the link whose receiving end `op` wrote: they must repair it"""
+    tgt = _op_receiving(defn, op)
+    if tgt is None:
+        return []
+    side, path, idx = tgt
+    if side == "in":
+        return [["resend", path, idx], ["setin", path, idx, None]]
+    ret = node_at(defn, path)["rets"][idx]
+    if ret[0] == "a":
+        return [["setuiout", path, ret[1], None]]
+    child = path + [ret[1]]
+    if node_at(defn, child)["t"] == "L":
+        return [["resendout", child, ret[2]], ["setout", child, ret[2], None]]
+    return []
+
+
 def gen_history(rng, defn, mode, cache):
     """mode: clean | child | any"""
     nargs = len(defn["args"])
@@ -427,40 +489,71 @@ def gen_history(rng, defn, mode, cache):
             if rng.random() < 0.8:
                 kwargs.append([k, _value(rng)])
     given = {k for k, _ in kwargs}
+    last = {k: v for k, v in kwargs}  # values assigned to the macro inputs so far
+
+    def val(k=None):
+        # now and then the value the channel was given before (equal, possibly the identical object)
+        if k is not None and k in last and rng.random() < 0.2:
+            return last[k]
+        return _value(rng)
+
     tg = _targets(defn)
     kinds = []
     if mode in ("child", "any"):
-        kinds += [("setin", "free")] * 3
+        kinds += [("setin", "free")] * 3 + [("resend", "free")]
         if not cache:
-            kinds += [("setin", "connected"), ("setout", "leaf_out"), ("setout", "leaf_out"), ("setuiout", "ui")]
+            kinds += [("setin", "connected"), ("setout", "leaf_out"), ("setout", "leaf_out"), ("setuiout", "ui"),
+                      ("resendout", "leaf_out")]
     if mode == "any":
-        kinds += [("setin", "receiver")] * 3 + [("setuiin", "ui")] * 2
+        kinds += [("setin", "receiver")] * 3 + [("setuiin", "ui")] * 2 + [("resend", "receiver")]
         if not cache:
             kinds += [("setout", "mac_out")] * 2
     kinds = [(o, k) for o, k in kinds if tg[k]]
-    for t in range(n_ops):
+    pending = []
+    t = 0
+    while t < n_ops:
+        t += 1
+        if pending and rng.random() < 0.6:
+            op = pending.pop(0)
+            if op[-1] is None:
+                op = op[:-1] + [_value(rng)]
+            ops.append(op)
+            continue
         r = rng.random()
         need = [k for k in missing if k not in given]
         if need and rng.random() < 0.85:
             k = need[0]
             given.add(k)
-            ops.append(["setin", [], k, _value(rng)])
+            last[k] = _value(rng)
+            ops.append(["setin", [], k, last[k]])
             continue
-        if r < 0.33 or t == n_ops - 1:
+        if r < 0.3 or t == n_ops:
             if nargs and rng.random() < 0.4:
-                kw = [[k, _value(rng)] for k in rng.sample(range(nargs), rng.randint(1, nargs))]
+                kw = [[k, val(k)] for k in rng.sample(range(nargs), rng.randint(1, nargs))]
                 given |= {k for k, _ in kw}
+                last.update({k: v for k, v in kw})
                 ops.append(["call", kw])
             else:
                 ops.append(["run"])
-        elif (r < 0.55 or not kinds) and nargs:
+        elif (r < 0.5 or not kinds) and nargs:
             k = rng.randrange(nargs)
-            given.add(k)
-            ops.append(["setin", [], k, _value(rng)])
+            if k in given and rng.random() < 0.2:
+                ops.append(["resend", [], k])
+            else:
+                given.add(k)
+                last[k] = val(k)
+                ops.append(["setin", [], k, last[k]])
         elif kinds:
             o, kind = rng.choice(kinds)
             p, k = rng.choice(tg[kind])
-            ops.append([o, p, k, _value(rng)])
+            op = [o, p, k] if o in ("resend", "resendout") else [o, p, k, _value(rng)]
+            ops.append(op)
+            fu = _followups(defn, op)
+            if fu and cache and fu[0][0] in ("resendout", "setout", "setuiout"):
+                fu = []
+            if fu:
+                pending.append(rng.choice(fu))
+                n_ops = min(n_ops + 1, 9)
         else:
             ops.append(["run"])
     if not any(o[0] in ("run", "call") for o in ops):
@@ -492,7 +585,8 @@ def _case(rng, tier_depth, mode, allow_dup, allow_ill):
         strip_hints(defn)
     cache = (rng.random() < 0.6) if mode == "clean" else (rng.random() < 0.35)
     kwargs, ops = gen_history(rng, defn, mode, cache)
-    return {"def": defn, "kwargs": kwargs, "cache": cache, "ops": ops, "mode": mode}
+    return {"def": defn, "kwargs": kwargs, "cache": cache, "ops": ops, "mode": mode,
+            "touch_base": rng.random() < 0.7}
 
 
 def _pattern_cases():
@@ -557,6 +651,8 @@ MALFORMED = [
     "cfg 1",
     "run now",
     "call 1 0 c0",
+    "resend - x",
+    "resendout 0",
 ]
 
 
@@ -796,13 +892,19 @@ def _isolation(n, obj, path, out):
             _isolation(ch, _kid(obj, j), list(path) + [j], out)
 
 
-def _preview(n, mod, out):
-    """class-level interface of every macro class against the signature the generator wrote"""
+def _preview(n, mod, out, reverse=False):
+    """class-level interface of every macro class against the signature the generator wrote; classes are
+    asked in definition order (a parent class before the class extending it) or in reverse"""
     from pyiron_workflow.channels import NOT_DATA
 
-    for m in D.macros_of(n):
+    ms = D.macros_of(n)
+    for m in (reversed(ms) if reverse else ms):
         cls = getattr(mod, f"M{m['id']}")
-        pv = cls.preview_io()
+        try:
+            pv = cls.preview_io()
+        except Exception as e:  # noqa: BLE001
+            out.append(("preview-raised", f"M{m['id']}.preview_io() raised {type(e).__name__}: {str(e)[:200]}"))
+            continue
         exp_in = {f"x{k}": (HINT_OBJ[a["h"]], NOT_DATA if a["d"] is None else D.to_py(a["d"]))
                   for k, a in enumerate(m["args"])}
         got_in = dict(pv["inputs"])
@@ -810,11 +912,12 @@ def _preview(n, mod, out):
             not (got_in[k][0] == exp_in[k][0] and (got_in[k][1] is exp_in[k][1] or got_in[k][1] == exp_in[k][1]))
             for k in exp_in
         ):
-            out.append(f"M{m['id']}: preview inputs {got_in} expected {exp_in}")
+            out.append(("inputs", f"M{m['id']}: preview inputs {got_in} expected {exp_in}"))
         exp_out = {lab: HINT_OBJ[h] for lab, h in zip(D.out_labels(m), m["oh"])}
         got_out = dict(pv["outputs"])
         if list(got_out) != list(exp_out) or any(not got_out[k] == exp_out[k] for k in exp_out):
-            out.append(f"M{m['id']}: preview outputs {got_out} expected {exp_out}")
+            out.append(("output-labels" if list(got_out) != list(exp_out) else "output-hints",
+                        f"M{m['id']}: preview outputs {got_out} expected {exp_out}"))
 
 
 def _instance_iface(n, obj, path, out):
@@ -824,18 +927,18 @@ def _instance_iface(n, obj, path, out):
     if n["t"] != "M":
         return
     if list(obj.inputs.labels) != [f"x{k}" for k in range(len(n["args"]))]:
-        out.append(f"{path_tok(path)}: input labels {list(obj.inputs.labels)}")
+        out.append(("inputs", f"{path_tok(path)}: input labels {list(obj.inputs.labels)}"))
     if list(obj.outputs.labels) != D.out_labels(n):
-        out.append(f"{path_tok(path)}: output labels {list(obj.outputs.labels)} expected {D.out_labels(n)}")
+        out.append(("output-labels", f"{path_tok(path)}: output labels {list(obj.outputs.labels)} expected {D.out_labels(n)}"))
         return
     for k, a in enumerate(n["args"]):
         ch = obj.inputs[f"x{k}"]
         exp_d = NOT_DATA if a["d"] is None else D.to_py(a["d"])
         if not (ch.default is exp_d or ch.default == exp_d) or not ch.type_hint == HINT_OBJ[a["h"]]:
-            out.append(f"{path_tok(path)}: input x{k} default {ch.default!r} hint {ch.type_hint!r}")
+            out.append(("inputs", f"{path_tok(path)}: input x{k} default {ch.default!r} hint {ch.type_hint!r}"))
     for lab, h in zip(D.out_labels(n), n["oh"]):
         if not obj.outputs[lab].type_hint == HINT_OBJ[h]:
-            out.append(f"{path_tok(path)}: output {lab} hint {obj.outputs[lab].type_hint!r}")
+            out.append(("output-hints", f"{path_tok(path)}: output {lab} hint {obj.outputs[lab].type_hint!r}"))
     for j, ch in enumerate(n["body"]):
         _instance_iface(ch, _kid(obj, j), list(path) + [j], out)
 
@@ -923,6 +1026,14 @@ def _run(case, modname, variant):
         facts["build"] = "def-exc"
         facts["exc"] = f"{type(e).__name__}: {e}"
         return res
+    subs = [x for x in D.macros_of(defn) if x.get("base") is not None]
+    if subs:
+        bump("subclassed")
+    facts["subclass_scraped"] = any(x["lab"] == "scrape" for x in subs)
+    _preview(defn, mod, facts["iface"], reverse=bool(subs) and not case.get("touch_base", True))
+    if facts["iface"]:
+        facts["build"] = "iface"
+        return res
     try:
         m = getattr(mod, f"M{defn['id']}")(label="m", **{f"x{k}": D.to_py(v) for k, v in case["kwargs"]})
     except Exception as e:  # noqa: BLE001
@@ -933,6 +1044,12 @@ def _run(case, modname, variant):
         return res
     bump("build:ok")
     facts["build"] = "ok"
+    pre = []
+    _instance_iface(defn, m, [], pre)
+    if pre:
+        facts["iface"] += pre
+        facts["build"] = "iface"
+        return res
     _set_cache(m, bool(case["cache"]))
     obs.append("build ok")
     obs.append("iface " + _iface(defn, m))
@@ -940,8 +1057,6 @@ def _run(case, modname, variant):
     snap = _snap(defn, m)
     facts["snaps"].append(snap)
     obs.append("st " + _show(snap))
-    _preview(defn, mod, facts["iface"])
-    _instance_iface(defn, m, [], facts["iface"])
     _isolation(defn, m, [], facts["isolation"])
 
     dead = False
@@ -983,6 +1098,21 @@ def _run(case, modname, variant):
             path = op[1]
             target = _descend(m, path)
             nd = node_at(defn, path)
+            if op[0] == "resend":
+                # the very object the channel holds is assigned again
+                ch = target.inputs[_in_label(nd, op[2])]
+                ch.value = ch.value
+                snap = _snap(defn, m)
+                facts["snaps"].append(snap)
+                obs.append("st " + _show(snap))
+                continue
+            if op[0] == "resendout":
+                ch = target.outputs[D.out_labels(nd)[op[2]]]
+                ch.value = ch.value
+                snap = _snap(defn, m)
+                facts["snaps"].append(snap)
+                obs.append("st " + _show(snap))
+                continue
             val = D.to_py(op[3])
             if op[0] == "setin":
                 target.inputs[_in_label(nd, op[2])].value = val
@@ -1039,6 +1169,8 @@ def model_input(case, impl=None):
             for k, val in op[1]:
                 kw += [str(k), *ptoks(val)]
             lines.append(" ".join(["call", str(len(op[1])), *kw]))
+        elif op[0] in ("resend", "resendout"):
+            lines.append(" ".join([op[0], path_tok(op[1]), str(op[2])]))
         else:
             lines.append(" ".join([op[0], path_tok(op[1]), str(op[2]), *ptoks(op[3])]))
     return lines
@@ -1048,6 +1180,9 @@ def corr_view(case, impl):
     obs = impl["obs"]
     if "malformed" in case:
         return obs
+    if impl.get("facts", {}).get("build") == "iface":
+        # the interface clause already failed (reported by the oracle): the object is not the defined macro
+        return None
     if impl.get("facts", {}).get("build") == "err":
         # nothing exists after a refused construction: the model answers every later op with `nostate`
         return ["build err"] + ["nostate"] * len(case["ops"])
@@ -1066,31 +1201,60 @@ def _f(clause, detail, **sig):
 def _op_receiving(defn, op):
     """if this op is an update on the receiving end of a value link: the (side, macro path, index) of the
     macro channel on the sending end, else None"""
-    if op[0] == "setin" and op[1] and input_kind(defn, op[1], op[2]) == "receiver":
+    if op[0] in ("setin", "resend") and op[1] and input_kind(defn, op[1], op[2]) == "receiver":
         s = node_at(defn, op[1])["srcs"][op[2]]
         return ("in", list(op[1][:-1]), s[1])
     if op[0] == "setuiin":
         return ("in", list(op[1]), op[2])
-    if op[0] == "setout" and node_at(defn, op[1])["t"] == "M":
+    if op[0] in ("setout", "resendout") and node_at(defn, op[1])["t"] == "M":
         return ("out", list(op[1]), op[2])
     return None
 
 
-def _sync(n, s, path):
-    """first macro channel that differs from the child channel it stands for: (side, path, index, dup) or None"""
+def _op_repairs(defn, op, cache):
+    """the links through which this op forwards a value from their SENDING end (they hold afterwards,
+    whatever their receiving end held before)"""
+    out = []
+    if op[0] in ("setin", "resend"):
+        out += chain_in(defn, op[1], op[2])
+    elif op[0] == "call":
+        for k, _v in op[1]:
+            out += chain_in(defn, [], k)
+    elif op[0] in ("setout", "resendout"):
+        if op[1]:
+            out += chain_out(defn, op[1][:-1], ["o", op[1][-1], op[2]])
+    elif op[0] == "setuiout":
+        out += chain_out(defn, op[1], ["a", op[2]])
+    if op[0] in ("run", "call") and not cache:
+        # everything is recomputed: every child output is set again, every connected input fetched again
+        for p in [()] + _paths(defn):
+            nd = node_at(defn, p)
+            if nd["t"] != "M":
+                continue
+            for r in range(len(nd["rets"])):
+                out.append(("out", list(p), r))
+            if p:
+                for i in range(len(nd["args"])):
+                    if input_kind(defn, list(p), i) == "connected":
+                        out += chain_in(defn, list(p), i)
+    return out
+
+
+def _sync_all(n, s, path, out):
+    """every macro channel that differs from the child channel it stands for: (side, path, index, dup, detail)"""
     if n["t"] != "M":
-        return None
+        return out
     for k in range(len(n["args"])):
         ro = role(n, k)
         if ro == ("ui",):
             if k not in s["ui"]:
-                return ("in", path, k, False, f"x{k}: UI node missing")
-            if s["ui"][k][0] != s["in"][k]:
-                return ("in", path, k, False, f"x{k}={s['in'][k]} but its UI node holds {s['ui'][k][0]}")
+                out.append(("in", list(path), k, False, f"x{k}: UI node missing"))
+            elif s["ui"][k][0] != s["in"][k]:
+                out.append(("in", list(path), k, False, f"x{k}={s['in'][k]} but its UI node holds {s['ui'][k][0]}"))
         elif ro[0] == "child":
             got = s["kids"][ro[1]]["in"][ro[2]]
             if got != s["in"][k]:
-                return ("in", path, k, False, f"x{k}={s['in'][k]} but c{ro[1]} input {ro[2]} holds {got}")
+                out.append(("in", list(path), k, False, f"x{k}={s['in'][k]} but c{ro[1]} input {ro[2]} holds {got}"))
     for r, ret in enumerate(n["rets"]):
         if ret[0] == "a":
             src = s["ui"][ret[1]][1] if ret[1] in s["ui"] else "<no UI node>"
@@ -1098,12 +1262,10 @@ def _sync(n, s, path):
             src = s["kids"][ret[1]]["out"][ret[2]]
         if s["out"][r] != src:
             dup = any(list(x) == list(ret) for x in n["rets"][r + 1:])
-            return ("out", path, r, dup, f"output {r}={s['out'][r]} but {ret} holds {src}")
+            out.append(("out", list(path), r, dup, f"output {r}={s['out'][r]} but {ret} holds {src}"))
     for j, ch in enumerate(n["body"]):
-        x = _sync(ch, s["kids"][j], list(path) + [j])
-        if x is not None:
-            return x
-    return None
+        _sync_all(ch, s["kids"][j], list(path) + [j], out)
+    return out
 
 
 def oracle(case, impl):
@@ -1115,6 +1277,11 @@ def oracle(case, impl):
     consistent = hints_consistent(defn)
     dup = has_dup(defn)
     refused_dup = bool(impl.get("variant", [0])[0]) and dup
+    if facts.get("iface"):
+        # inputs, defaults, hints, output labels = those of the defining function
+        part, text = facts["iface"][0]
+        return _f("interface", "; ".join(t for _p, t in facts["iface"][:3]), trigger="build", part=part,
+                  label_inheritance=bool(facts.get("subclass_scraped")) and part in ("output-labels", "preview-raised"))
     if b == "def-exc":
         return _f("definition", f"the generated definition does not import: {facts.get('exc')}", trigger="def")
     if b == "err":
@@ -1122,9 +1289,6 @@ def oracle(case, impl):
             return _f("build-refused", f"a consistent definition cannot be instantiated: {facts.get('exc')}",
                       trigger="build")
         return []
-    # interface: inputs, defaults, hints, output labels = those of the defining function
-    if facts.get("iface"):
-        return _f("interface", "; ".join(facts["iface"][:3]), trigger="build")
     if facts.get("isolation"):
         return _f("isolated", "; ".join(facts["isolation"][:3]), trigger="build")
     if facts.get("op_exc"):
@@ -1136,51 +1300,63 @@ def oracle(case, impl):
     for k, a in enumerate(defn["args"]):
         exp = given.get(k, jtok(a["d"]))
         if s0["in"][k] != exp:
-            return _f("interface", f"x{k} starts as {s0['in'][k]}, expected {exp}", trigger="build")
-    tainted = False
+            return _f("interface", f"x{k} starts as {s0['in'][k]}, expected {exp}", trigger="build", part="initial",
+                      label_inheritance=False)
+    fails = []
+    broken = set()  # links whose receiving end was written: they may differ until their sending end is updated
     ov = {}
     run_i = 0
     ops = [["build"]] + list(case["ops"])
     for t, (op, s) in enumerate(zip(ops, snaps)):
+        rf = None
         if op[0] in ("run", "call"):
             rf = facts["runs"][run_i]
             run_i += 1
             if not rf["ok"]:
-                # a run may only be refused when some macro input holds no data (or was tainted before)
+                # a run may only be refused when some macro input holds no data (or a link is broken)
                 prev = next(x for x in reversed(snaps[:t]) if x is not None)
                 ins = list(prev["in"])
                 if op[0] == "call":
                     for k, v in op[1]:
                         ins[k] = jtok(v)
-                if "ND" not in ins and not tainted and not dup:
-                    return _f("run-failed", f"run #{run_i} failed with all inputs given: {rf.get('exc')}",
-                              trigger=op[0])
+                if "ND" not in ins and not broken and not dup:
+                    fails += _f("run-failed", f"run #{run_i} failed with all inputs given: {rf.get('exc')}",
+                                trigger=op[0])
                 break
         if s is None:
             break
-        recv = _op_receiving(defn, op) if t > 0 else None
         if op[0] == "setin" and op[1] and input_kind(defn, op[1], op[2]) == "free":
             ov[(tuple(op[1]), op[2])] = jtok(op[3])
-        x = _sync(defn, s, [])
-        if x is not None:
-            side, path, idx, isdup, detail = x
-            # excusable as "one-directional link" only when the pair that differs is the updated link itself
-            return _f("sync", f"after op #{t} {op}: macro {path_tok(path)} {detail}", side=side, trigger=op[0],
-                      receiving_side=(recv == (side, list(path), idx)), dup_return=isdup)
+        if t > 0:
+            for side, path, idx in _op_repairs(defn, op, case["cache"]):
+                broken.discard((side, tuple(path), idx))
+        recv = _op_receiving(defn, op) if t > 0 else None
         if recv is not None:
-            tainted = True  # (not reached on the pinned tree: the sync clause fails first)
-        if op[0] in ("run", "call") and not tainted:
+            broken.add((recv[0], tuple(recv[1]), recv[2]))
+        bad = None
+        for side, path, idx, isdup, detail in _sync_all(defn, s, [], []):
+            key = (side, tuple(path), idx)
+            if key in broken:
+                if recv is not None and key == (recv[0], tuple(recv[1]), recv[2]) and not any(
+                        f["signature"].get("receiving_side") for f in fails):
+                    # the one-directional link itself (listed finding): reported once, the history goes on
+                    fails += _f("sync", f"after op #{t} {op}: macro {path_tok(path)} {detail}", side=side,
+                                trigger=op[0], receiving_side=True, dup_return=isdup)
+                continue
+            bad = _f("sync", f"after op #{t} {op}: macro {path_tok(path)} {detail}", side=side, trigger=op[0],
+                     receiving_side=False, dup_return=isdup)
+            break
+        if bad:
+            return fails + bad
+        if rf is not None and not any(k[0] == "in" for k in broken):
             exp = py_eval(defn, s["in"], ov, ())
             if s["out"] != exp:
-                return _f("outputs", f"after op #{t} {op}: macro outputs {s['out']} but plain Python gives {exp}",
-                          trigger=op[0], against="python")
+                return fails + _f("outputs", f"after op #{t} {op}: macro outputs {s['out']} but plain Python gives {exp}",
+                                  trigger=op[0], against="python")
             if rf["flat"] != exp:
-                return _f("outputs", f"after op #{t} {op}: the inlined workflow gives {rf['flat']}, plain Python {exp}",
-                          trigger=op[0], against="inlined-vs-python")
-            if rf["flat"] != s["out"]:
-                return _f("outputs", f"after op #{t} {op}: macro {s['out']} inlined {rf['flat']}", trigger=op[0],
-                          against="inlined")
-    return []
+                return fails + _f("outputs", f"after op #{t} {op}: the inlined workflow gives {rf['flat']}, plain "
+                                  f"Python {exp}", trigger=op[0], against="inlined-vs-python")
+    return fails
 
 
 # ----------------------------------------------------------------------------- shrinking
